@@ -192,6 +192,8 @@ def _run(spec: dict, ctx: Ctx, tier: str) -> None:
         for n in range(3, max_n_for(name, tier) + 1):
             strat = st.integers(0, 2**32 - 1).map(lambda seed, name=name, n=n: {"name": name, "n": n, "seed": seed})
             per = spec["seeds"] if n <= 6 else max(2, spec["seeds"] // 3)
+            if n <= 4 and name not in ("oxs", "covg_fn_generator"):
+                per *= 5       # small games are cheap, and rare draws (an edgeless random graph, a degenerate owner...) live there
             ctx.run_given(strat, check_case, per, sub_seed=(j * 16 + n) % 9973)
             visited += 1
     ctx.extra["name_n_pairs_visited"] = visited
